@@ -50,6 +50,13 @@ pub struct FnSpec {
     pub props: Vec<String>,
     pub retype: Vec<(String, String)>,
     pub traitimpl: Option<String>,
+    pub locals: Vec<(String, usize)>,      // `local NAME ORD`: a local the overlay names; if renamed in the source, the ORD-th `let` of the function
+    pub closure: Option<usize>,            // this entry is the k-th closure literal of the function (lifted to a function)
+    pub sig: Option<String>,               // signature of the lifted closure (captured variables become parameters)
+    pub ctl: bool,                         // the lifted closure may unwind (panic): it returns Ctl<R>
+    pub closurecalls: Vec<(usize, String)>, // closure literal #k of this function is replaced by this expression
+    pub blocking: bool,                    // this code runs on a thread where blocking is allowed (C14)
+    pub panics: Vec<String>,               // local closures whose call may panic (call returns Ctl<R>)
 }
 
 #[derive(Debug, Default, Clone)]
@@ -102,6 +109,11 @@ pub struct Unit {
     pub methodval: Vec<(String, String)>,
     pub inlinecall: Vec<String>,
     pub optionmap: bool,
+    pub resultmap: bool,
+    pub mutexlocals: Vec<String>,
+    pub poisonlocks: bool,
+    pub blockingctx: bool, // calls into user code / value destruction carry `true|false`: does this code run where blocking is allowed
+    pub dropvalue: Option<String>,
     pub heapupgrade: Option<String>, // name of the heap parameter: `if let Some(x) = W.upgrade() { B }` runs B on the heap's object
     pub constfn: Vec<(String, String)>,
     pub argcall: Vec<(String, String, String)>,
@@ -219,6 +231,19 @@ fn parse_fn(head: &str, body: &[String]) -> FnSpec {
         match word.as_str() {
             "as" => f.rename = Some(rest),
             "traitimpl" => f.traitimpl = Some(rest),
+            "closure" => f.closure = Some(rest.trim().parse().expect("closure index")),
+            "sig" => f.sig = Some(rest),
+            "ctl" => f.ctl = true,
+            "local" => {
+                let w: Vec<&str> = rest.split_whitespace().collect();
+                f.locals.push((w[0].to_string(), w[1].parse().expect("local NAME ORD")));
+            }
+            "blocking" => f.blocking = true,
+            "panics" => f.panics.extend(rest.split_whitespace().map(|x| x.to_string())),
+            "closurecall" => {
+                let (k, e) = rest.split_once(char::is_whitespace).expect("closurecall K EXPR");
+                f.closurecalls.push((k.parse().expect("closure index"), e.trim().to_string()));
+            }
             "param" => f.params.push(rest),
             "self" => f.selfkind = Some(rest),
             "returns" => f.ret_name = Some(rest),
@@ -350,6 +375,11 @@ pub fn parse_unit(text: &str) -> Unit {
             "pathrename" => u.pathrename.push((words[0].clone(), words[1].clone())),
             "strlits" => u.strlits = true,
             "optionmap" => u.optionmap = true,
+            "resultmap" => u.resultmap = true,
+            "mutexlocals" => u.mutexlocals.extend(words),
+            "poisonlocks" => u.poisonlocks = true,
+            "blockingctx" => u.blockingctx = true,
+            "dropvalue" => u.dropvalue = Some(words[0].clone()),
             "heapupgrade" => u.heapupgrade = Some(words[0].clone()),
             "inlinecall" => u.inlinecall.extend(words),
             "constfn" => u.constfn.push((words[0].clone(), words[1].clone())),
